@@ -27,7 +27,7 @@ RUNS = {'quick': 400, 'thorough': 6000}
 RULE = ('runs generated from the seed: a pool of 2-8 genomes incl. identical and equidistant ones (plain + gzip files), then 5-10 tree commands with drawn input channel '
         '(positional / list file + --ldir / signature file), 2-7 inputs with repeats, -k/-p given or absent, -c, progress, pool completion policy and OpenMP hand-out. '
         'The Newick output is read by an independent reader and compared with every admissible average-linkage clustering of the expected distance matrix. '
-        'A case is (channel, multiset+order of inputs, tie structure, cores, completion order); non-trivial = n>=3 or a zero/tied distance present.')
+        'A case is (channel, multiset+order of inputs, tie structure, cores, completion order); non-trivial = n>=3 or a zero/tied distance present. Further drawn dimensions: 8-14 leaves in a few commands, injected faults (fail-or-fully-correct), failing commands as context, homonym files (identical labels), symlinked inputs, path-like stored ids, big-endian signature files (refuse-or-correct), list files without --ldir, decoy working directory, tuning-knob defaults, python -O in every fourth run.')
 STATES_MEASURE = 'distinct OpenMP schedule signatures of whole commands'
 
 REAL = ['click command gambit tree', 'calc_file_signatures', 'jaccarddist_pairwise + compiled kernel', 'scipy average linkage', 'linkage_to_bio_tree', 'Bio.Phylo newick writer']
